@@ -78,11 +78,22 @@ def run(check, an: Analysis):
     from . import c09
     c09.run(SubCheck(check, 'M', 'Lock'), an)
     an.cls(QUEUE)
-    recv = an.callee(QUEUE, '_await_message')
     put = an.callee(QUEUE, 'put')
     close = an.callee(QUEUE, 'close')
     aiter = an.callee(QUEUE, '__aiter__')
     await_ = an.callee(QUEUE, '__await__')
+    # the coroutine that `await queue` delegates to (a method, or a private function of the
+    # module that is given the queue)
+    receivers = []
+    for path in an.paths(await_):
+        for event in path.events:
+            if event.kind == 'susp' and event.depth == 0:
+                for callee in event.get('callees') or ():
+                    if callee.fn.kind == 'coroutine' and callee not in receivers:
+                        receivers.append(callee)
+    if len(receivers) != 1:
+        raise AnalysisError('Queue.__await__ delegates to %d coroutines' % len(receivers))
+    recv = receivers[0]
 
     # ---- W ------------------------------------------------------------------
     recv_paths = an.paths(recv)
@@ -105,7 +116,7 @@ def run(check, an: Analysis):
     # __await__ delegates to _await_message and returns its value
     for path in an.paths(await_):
         if path.kind == 'return':
-            delegated = any(e.kind == 'susp' and is_call_to(e, '_await_message')
+            delegated = any(e.kind == 'susp' and is_call_to(e, recv.fn.name)
                             and e['exit'] == 'normal' for e in path.events)
             value = path.outcome[1]
             ok = delegated and isinstance(value, ast.YieldFrom)
